@@ -857,7 +857,7 @@ class Executor:
                     raise Unsupported(f"havoc of field {name} holding {type(cur).__name__}")
                 o.fields[fld] = self.havoc_like(cur, f"{fld}_L{L}")
             elif name in spec.kinds:
-                if name in env:
+                if name in env and spec.kinds[name] != "skip":  # "skip": the contract's own havoc action handles it
                     env[name] = self.fresh(spec.kinds[name], f"{name}_L{L}")
             elif name in env and not isinstance(env[name], (Func, Builtin, ClassRef)):
                 env[name] = self.havoc_like(env[name], f"{name}_L{L}")
@@ -1072,7 +1072,14 @@ class Executor:
                 if not any(exc_isa(pr.exc.cls, self.ctx.exc_alias.get(n, n)) for n in names):
                     raise
             return
-        raise Unsupported(f"with-statement at L{s.lineno}")
+        # generic `with <expr> [as name]:` - the context manager is assumed not to swallow exceptions (true of files,
+        # zip files and the other managers the verified code uses); __exit__ itself is assumed not to raise
+        for it in s.items:
+            v = self.eval(it.context_expr, env)
+            if it.optional_vars is not None:
+                self.assign(it.optional_vars, v, env)
+        self.notes.add("with-statement: context manager assumed transparent (no exception swallowed, __exit__ does not raise)")
+        return self.exec_block(s.body, env)
 
     def s_FunctionDef(self, s, env):
         env[s.name] = Func(s, self.finfo.mod, closure=env)
@@ -1170,6 +1177,8 @@ class Executor:
             return SStr(z3.If(v.t, z3.StringVal("True"), z3.StringVal("False")))
         if v is None:
             return "None"
+        if isinstance(v, VExc):
+            return SStr(z3.String(fresh_name("excmsg")))
         if isinstance(v, SOpt):
             inner = self.to_str(v.val, line)
             return SStr(z3.If(v.isnone, z3.StringVal("None"), lift(inner)))
@@ -2306,6 +2315,7 @@ class Executor:
                 allowed = (exc_cls, cond)
                 break
         if allowed is None and any(exc_isa(exc.cls, m) for m in c.may_raise):
+            self.oblige(f"exit-allowed/{exc.cls}@{exc.origin}", z3.BoolVal(True), "exc-escape", self.cur_line)
             self.finish_path("raise-allowed")
             return
         if allowed is None:
@@ -2314,6 +2324,8 @@ class Executor:
         elif allowed[1] is not None:
             self.oblige(f"raises-only-if/{allowed[0]}@{exc.origin}", self.spec_bool(allowed[1], e), "exc-post",
                         self.cur_line)
+        else:
+            self.oblige(f"exit-allowed/{exc.cls}@{exc.origin}", z3.BoolVal(True), "exc-escape", self.cur_line)
         for i, post in enumerate(c.exc_ensures):
             self.oblige(f"excpost{i}@{exc.origin}", self.spec_bool(post, e), "exc-post", self.cur_line)
         self.finish_path("raise")
